@@ -169,7 +169,7 @@ def rewriteLine (z : Bytes) (mask : List Bool) (force : Bool) (mtime mdate : Nat
     | .ok _ =>
       match rewriteWith z mask force mtime mdate news with
       | .ok out => s!"ok {toHex out}"
-      | x => "err " ++ errTag x
+      | x => "err wd-" ++ errTag x      -- read and the member loop succeeded: what is left is `WriteDirectory`
     | x => "err mangle-" ++ errTag x
   | x => "err read-" ++ errTag x
 
@@ -198,8 +198,10 @@ def wdxLine (n cs us off : Nat) : String :=
   let f0 : File := { creator := 45, reader := 20, flags := 0, method := 0, mtime := 0, mdate := 0, crc := 0, csize := cs,
                      usize := us, name := [97], extra := List.replicate n 0x41, comment := [], iattrs := 0, eattrs := 0,
                      offset := off, raw := [] }
-  let (cd, eod, _) := writeDirectory { files := [f0], size := 0, dirLoc := 1000 } false
-  s!"ok {cd.length} {ck cd} {toHex eod} {toHex (cd.take 80)}"
+  -- `WriteDirectory` as it stands (fix-F7g): refused when the ZIP64 field does not fit the 16-bit extra length
+  match writeDirectoryFx { files := [f0], size := 0, dirLoc := 1000 } false with
+  | .ok (cd, eod, _) => s!"ok {cd.length} {ck cd} {toHex eod} {toHex (cd.take 80)}"
+  | x => showRes (fun _ => "") x
 
 def handle : List String → String
   -- an archive of n plain members plus k added through AddFile / NewFile / WriteDirectory: by zip64_thresholds /
